@@ -12,7 +12,9 @@ BASELINE = ("cd /repo && /venv/bin/python -m pytest -ra -q -p no:cacheprovider -
 # property -> (category, text, design_ref, level_note, technique)
 _NOTE = ("simulated SLURM, lock library, clock and subprocess layer at the process boundary (harness/boundary.py); "
          "truthful squeue; bounds as stated in the evidence file")
-_TECH = "TLA+ models (JadeImpl/Batching) checked by TLC + TLC trace validation of real executions against JadeMonitor"
+_TECH = ("TLA+ models (JadeImpl / NodeQueue / Batching / Resubmit / Pipeline / ClusterStore / Results) checked by TLC; model "
+         "behaviours replayed into the real code and recorded runs followed by the model (JadeImplPath); TLC trace validation of "
+         "real executions against JadeMonitor")
 
 
 def _claim(text, ref):
@@ -24,21 +26,35 @@ CLAIMS = {
                   "JadeImpl on small scenarios (no double placement, fresh batch numbers, one launch); JadeImpl behaviours are "
                   "replayed into the real code and must produce the predicted events; traces of the real submit-jobs/run-jobs/"
                   "try-submit-jobs under random interleavings are validated by TLC against the C01 clauses of JadeMonitor.tla. "
+                  "Also: recorded runs followed by JadeImpl (code -> model), single-delay and login-round x delay sweeps (also "
+                  "with file operations as scheduling points), PlacedOrCanceled at every fault-free completion. "
                   "Bounded: small scopes exhaustively, larger ones sampled.", "5-C01"),
     "C02": _claim("StartAfterBlockers (every launch finds a result row on disk for each configured blocker) is checked by TLC "
                   "on all JadeImpl interleavings (node-level gate in NodePoll, submitter-level hand-over in SubmitBatch) and on "
-                  "every launch event of real traces (model replays + random DAGs/parameters/schedules).", "5-C02"),
+                  "every launch event of real traces (model replays + random DAGs/parameters/schedules); the hand-over clause "
+                  "HandoverCoversUnfinished at every batch file; NodeQueue.tla: one node at the grain of one iteration of "
+                  "_check_completions -- TLC explores all inputs <=3 jobs x all exit placements (4 jobs thorough) and the real "
+                  "JobQueue+AsyncCliCommand are driven along every exit schedule of the same inputs (incl. commands that cannot "
+                  "be started) and compared with NodeQueue!Run; histories with resubmissions/cancellations; a scheduler that "
+                  "answers with an empty listing. K2 is a listed known finding.", "5-C02"),
     "C03": _claim("FinalResultsComplete/FinalResultsMatchReference/OneEntryPerJob at every results.json of fault-free runs: "
                   "the reference outcome is computed from the DAG, flags and exit codes only, so every schedule and parameter "
                   "set of a scenario is compared with the same reference; decided on all JadeImpl interleavings and on real "
                   "traces.", "5-C03"),
     "C04": _claim("CanceledShape/CanceledNeverRuns/CanceledOnlyIf/CanceledIff/RanExactlyOnceUnlessCanceled on JadeImpl (node-"
-                  "level fixpoint in NodePoll, submitter-level fixpoint in CancelPass) and on real traces.", "5-C04"),
+                  "level fixpoint in NodePoll, submitter-level fixpoint in CancelPass) and on real traces; NotCanceledRuns (a job "
+                  "the reference does not cancel was started); the cancellation-shape sweep (every 3-job DAG x flags x failing "
+                  "job x placement); NodeQueue.tla machine + every exit schedule on the real JobQueue (see C02).", "5-C04"),
     "C05": _claim("Safety clauses (QuiescentRoundProgress, NoIdleLeftover, CompleteHasAllResults, SummaryBeforeFlag, "
                   "CompleteOnce, NoSbatchAfterComplete) on JadeImpl and real traces; eventual completion as bounded recovery on "
-                  "the real code (CompletesAfterRecovery) and on the model.", "5-C05"),
+                  "the real code (CompletesAfterRecovery) and on the model; TLC liveness (FairSpec => eventually complete, and its "
+                  "violation without the user's recovery); JadeImpl with the user's try-submit-jobs at any moment (EagerUser); "
+                  "CompleteSummaryHasAll, SummaryOnlyBeforeFlag, NodeRoundAfterBatch; login-node rounds started at every other "
+                  "step of base schedules and held at each of their operations.", "5-C05"),
     "C06": _claim("NodesBound against the simulator's ground truth after every sbatch/hpc event and ProcsBound after every "
-                  "launch, on JadeImpl and real traces.", "5-C06"),
+                  "launch, on JadeImpl and real traces (incl. failing scheduler queries); node-level ProcsBound on NodeQueue.tla "
+                  "(all inputs <=3 jobs) and on the real JobQueue along every exit schedule, plus random 5-9-job "
+                  "cancellation-heavy batches.", "5-C06"),
     "C07": _claim("Batching.tla: TLC enumerates every batching input with <=3 jobs (admissible batches, node budget, "
                   "termination, closed form = step-wise run); the same input space is executed on the real submit-jobs and the "
                   "observed batches are validated by TLC against the closed form (BatchTrace.tla); C07 clauses of JadeMonitor on "
@@ -46,8 +62,9 @@ CLAIMS = {
                   "5-C07"),
     "C08": _claim("Results.tla: all interleavings of appenders, collectors (with canceled rows) and a reader at lock-operation "
                   "granularity (bag conservation, exactly-once reporting); its behaviours and random schedules are executed on "
-                  "the real ResultsAggregator in virtual processes parked at every lock operation; rows/collected events of whole "
-                  "submissions are validated too.", "5-C08"),
+                  "the real ResultsAggregator in virtual processes parked at every lock operation, and random schedules with every "
+                  "file operation (result and lock files) as a scheduling point; rows/collected events of whole submissions incl. "
+                  "login-node rounds held at each file operation.", "5-C08"),
     "C09": _claim("All status clauses evaluated after every cluster-lock release (and between consecutive statuses) on "
                   "JadeImpl and on real traces.", "5-C09"),
 }
@@ -56,24 +73,30 @@ CLAIMS["C10"] = _claim("ClusterStore.tla: all interleavings of load/promote/demo
                        "by 2-3 handles on 2 hosts incl. handles loaded before others changed the state (one role holder, "
                        "promotion refused while held, stale writes rejected with all four files unchanged); behaviours and random "
                        "schedules executed on the real Cluster class with byte comparison of the files around every operation; "
-                       "promote/status events of whole submissions.", "5-C10")
+                       "crash histories (op!k: a process killed between the file writes of one update, its marker broken by the lock "
+                       "library for a same-host process) and retry-after-rejection plans; cop events carry the versions of both "
+                       "files; promote/status events of whole submissions.", "5-C10")
 
 CLAIMS["C11"] = ("fault_enumeration",
                  "Systematic single-fault sweep on the real code: every submitter process of base schedules x every boundary "
                  "operation (fault mode: every file mutation) x {SIGKILL, failed lock acquisition, failed write} x both lock-"
                  "library policies, followed by the other nodes' rounds and user try-submit-jobs; failed scheduler queries; "
                  "every recorded trace validated by TLC against the C11 clauses of JadeMonitor (OnePlacement, OneLaunch, "
-                 "StartAfterBlockers, RowsNeverLost, FreshBatchIndex, SqueueFailureHarmless).", "5-C11", _NOTE,
-                 "fault enumeration on the real code + TLC trace validation against JadeMonitor")
+                 "StartAfterBlockers, RowsNeverLost, FreshBatchIndex, SqueueFailureHarmless, AfterSqueueFaultNormal); JadeImpl with "
+                 "Kill / failing sbatch / failing squeue actions explored by TLC and replayed into the code.", "5-C11", _NOTE,
+                 "fault enumeration on the real code + TLC trace validation against JadeMonitor + JadeImpl fault actions")
 CLAIMS["C12"] = ("fault_enumeration",
                  "Every subset (<=3) of batches failing at sbatch, a node killed at every operation of every runner (fault mode: "
                  "every lock operation and file mutation), the same while a user's try-submit-jobs is held at each of its "
                  "operations, dependency cycles, random node faults; documented recovery; traces validated by TLC against "
                  "MissingExact, NoFabricatedResult, FinishedKeepResults, StartAfterBlockers, CompletesAfterRecovery. K1 is a "
-                 "listed known finding.", "5-C12", _NOTE,
-                 "fault enumeration on the real code + TLC trace validation against JadeMonitor")
+                 "listed known finding. JadeImpl with NodeKill / failing sbatch actions explored by TLC and replayed.", "5-C12", _NOTE,
+                 "fault enumeration on the real code + TLC trace validation against JadeMonitor + JadeImpl fault actions")
 
-CLAIMS["C13"] = _claim("Traces of real submissions run to completion and then resubmitted (8 flag combinations, once or twice, "
+CLAIMS["C13"] = _claim("Resubmit.tla: what resubmit-jobs computes and writes before it submits (selection by flags, closure "
+                       "under dependents, blockers of rerun jobs, reset, pruned results) checked by TLC for every completed "
+                       "submission of <=3 jobs (4 thorough) and compared with what the real command wrote in every run; K2 is "
+                       "the TLC counterexample of Resubmit_k2.cfg. Traces of real submissions run to completion and then resubmitted (8 flag combinations, once or twice, "
                        "with/without report generation, missing jobs produced by failed sbatch calls; the whole 3-job space of DAGs "
                        "x exit codes x flags sampled/swept) and of resubmit-jobs on incomplete submissions (nobody submitter / a "
                        "compute node holds the role, other or same host) are validated by TLC against the epoch-aware clauses of "
@@ -82,15 +105,21 @@ CLAIMS["C13"] = _claim("Traces of real submissions run to completion and then re
 CLAIMS["C14"] = _claim("cancel-jobs issued at every scheduling step of base schedules and at random moments of random submissions, "
                        "followed by try-submit-jobs/show-status sequences; traces validated by TLC against NoSbatchAfterCancel, "
                        "ActiveBatchesCancelled (simulated scancel with SLURM's return codes), MissingExact, FinishedKeepResults, "
-                       "RowsNeverLost.", "5-C14")
+                       "RowsNeverLost; JadeImpl with cancel-jobs as a process of its own started at any moment, explored by TLC and "
+                       "replayed; cancel at quiet moments (no batch active, jobs unsubmitted).", "5-C14")
 CLAIMS["C16"] = _claim("All 16 set/unset combinations of the four lifecycle commands x local/HPC x random DAGs and schedules; the "
                        "commands are served by the controller and recorded with host, batch, environment, rows on disk and live "
-                       "job processes; traces validated by TLC against the hook clauses of JadeMonitor.", "5-C16")
+                       "job processes; traces validated by TLC against the hook clauses of JadeMonitor; JadeImpl with the four "
+                       "commands as actions (Teardown between Summary and MarkComplete, NodeSetup/NodeTeardown around the node's "
+                       "queue) explored by TLC and replayed; failing teardown / node teardown commands; multi-group runs.", "5-C16")
 
 CLAIMS["C15"] = _claim("Traces of real `jade pipeline submit` runs (1-4 stages, local and HPC, nested submit-next-stage commands as "
                        "virtual processes, per-stage recovery) are validated by TLC against PipelineMonitor.tla: stage k+1 is "
                        "created / active only after stage k's complete status, each stage created once and in order, "
-                       "pipeline.json's stage number and return codes match what happened, pipeline complete last.", "5-C15")
+                       "pipeline.json's stage number and return codes match what happened, pipeline complete last; pipelines built "
+                       "from auto-config commands (the command sees the status file); Pipeline.tla: the manager as a deterministic "
+                       "function of the stages' outcomes, checked against the monitor for all shapes <=4 stages, and every recorded "
+                       "run's manager-level events compared with it.", "5-C15")
 
 _FNOTE = ("the real functions are executed in-process on enumerated inputs with only the process/SLURM boundary stubbed; TLC "
           "validates every recorded (input, output) observation against the operators of the specification module; string-level "
@@ -105,7 +134,8 @@ CLAIMS["C18"] = ("model_checking",
                  "Slurm.tla: the retry loop as a state machine (TLC: all outcome sequences, retries 0..6); operators for the "
                  "expected #SBATCH directives, the terminal SLURM states and the submit-response classes; all 2^9 optional-field "
                  "combinations, every SLURM state x whitespace rendering, 7 response classes and all retry outcome sequences are "
-                 "executed on the real code and validated by TLC.", "5-C18", _FNOTE,
+                 "executed on the real code and validated by TLC; the whole status path also runs against a scheduler that "
+                 "interprets the squeue command line (-u/-j/-n/-t/-h/--Format).", "5-C18", _FNOTE,
                  "TLA+ model (Slurm) checked by TLC + TLC validation of observations of the real code")
 CLAIMS["C19"] = ("model_checking",
                  "Launch.tla: POSIX word splitting as a recursive operator, enumerated by TLC over all strings <=5 of a 9-symbol "
@@ -117,7 +147,8 @@ CLAIMS["C20"] = ("model_checking",
                  "Reports.tla: the running min/max/sum machine (TLC: all sample sequences <=5 over 0..3) and the consolidation "
                  "operators; all sample sequences <=4 are fed to the real ResourceMonitorAggregator (node and per-process), random "
                  "event multisets over several files are consolidated twice with the real EventsSummary, and TLC validates the "
-                 "observations; results.json tallies are validated on whole submissions (TallyPartition).", "5-C20", _FNOTE,
+                 "observations; results.json tallies are validated on whole submissions (TallyPartition) and the consolidated "
+                 "event summary against the event logs after a resubmission (reports on, periodic monitoring).", "5-C20", _FNOTE,
                  "TLA+ model (Reports) checked by TLC + TLC validation of observations of the real code")
 
 NOT_YET = "check not built yet in this round (the specification and harness are being extended property by property)"
